@@ -7,9 +7,18 @@ Record hstart := { hs_time : Z; hs_attempts : Z; hs_hedges : Z; hs_is_hedge : bo
 (* [c_second]: the hedge sits inside a retry policy (one retry after [delay]); when the first hedged run ends in an
    error the second run uses the second list of attempts and starts at end + delay *)
 Record case := mk_case {
-  c_id : Z; c_cfg : hcfg; c_atts : list attempt; c_second : option (Z * list attempt); c_ext : option (Z * err); c_t0 : Z;
+  c_id : Z; c_cfg : hcfg; c_atts0 : list attempt; c_second : option (Z * list attempt); c_ext : option (Z * err); c_t0 : Z;
+  c_inner : Z;  (* > 0: a Timeout with this limit sits INSIDE the hedge, around the function (0: nothing, or a closed breaker) *)
   c_out : outcome; c_end : Z; c_starts : list hstart; c_hedge_events : list Z;
   c_cancelled : list bool }.
+
+(* what the hedge sees of an attempt that runs inside a Timeout: an attempt that outlasts the limit ends in ErrExceeded -- at the
+   limit when it watches for its cancellation, when the function returns otherwise *)
+Definition through_timeout (limit : Z) (a : attempt) : attempt :=
+  if (0 <? limit) && (limit <? a_dur a) then
+    {| a_dur := if a_coop a then limit else a_dur a; a_out := (0, Some ETimeout); a_coop := a_coop a |}
+  else a.
+Definition c_atts (c : case) : list attempt := map (through_timeout (c_inner c)) (c_atts0 c).
 
 Fixpoint zl_eqb (a b : list Z) : bool :=
   match a, b with [], [] => true | x :: a', y :: b' => (x =? y) && zl_eqb a' b' | _, _ => false end.
@@ -35,7 +44,9 @@ Definition agrees (c : case) : bool :=
   match model_runs c with
   | (m, None) =>
       ho_tie m || outcome_eqb (ho_out m) (c_out c) && (ho_end m =? c_end c) && zl_eqb (ho_starts m) (map hs_time (c_starts c))
-      && zl_eqb (tl (ho_starts m)) (c_hedge_events c) && bl_eqb (ho_cancelled m) (c_cancelled c)
+      && zl_eqb (tl (ho_starts m)) (c_hedge_events c)
+      (* (inside a Timeout the function's own execution is also cancelled by the timeout: not compared) *)
+      && ((0 <? c_inner c) || bl_eqb (ho_cancelled m) (c_cancelled c))
       && (match c_second c with None => starts_ok (c_starts c) | Some _ => true end)
   | (m, Some m2) =>
       (* the enclosing retry policy (one retry) is exhausted when the second run fails too: ExceededError wraps its outcome *)
@@ -88,7 +99,12 @@ Definition checker_ok (c : case) : bool :=
       | None =>
           (* the result was produced by one of the attempts; losers cancelled, winner not *)
           existsb (fun a => outcome_eqb (a_out a) (c_out c)) (firstn (length (c_starts c)) (c_atts c))
-          && (Z.of_nat (length (filter negb (c_cancelled c))) =? 1)
+          (* ... as soon as a result matching the cancel conditions was produced: the call does not outlast any started
+             attempt whose result matches *)
+          && forallb (fun p => let '(s, a) := p in
+                        negb (is_abortable (h_cancel (c_cfg c)) (a_out a)) || (c_end c <=? hs_time s + a_dur a))
+                     (combine (c_starts c) (c_atts c))
+          && ((0 <? c_inner c) || (Z.of_nat (length (filter negb (c_cancelled c))) =? 1))
       end).
 
 Definition skipped_ids (cs : list case) : list Z := map c_id (filter tie_any cs).
